@@ -114,7 +114,7 @@ class URI(object):
 
     def __str__(self):
         if self.protocol == "PYROMETA":
-            result = "PYROMETA:" + ",".join(self.object)
+            result = "PYROMETA:" + ",".join(sorted(self.object))
         else:
             result = self.protocol + ":" + self.object
         if self.location:
